@@ -226,6 +226,22 @@ func Forall(vars []Term, body Term, pats ...[]Term) Term {
 		fmt.Fprintf(&b, "(%s %s)", v.S, v.Sort)
 	}
 	b.WriteString(") ")
+	// a pattern may not contain connectives or ite: such patterns are dropped (the solver then chooses its own triggers)
+	{
+		var ok [][]Term
+		for _, p := range pats {
+			bad := false
+			for _, t := range p {
+				if strings.Contains(t.S, "(ite ") || strings.Contains(t.S, "(not ") || strings.Contains(t.S, "(and ") || strings.Contains(t.S, "(or ") || strings.Contains(t.S, "(=> ") || strings.Contains(t.S, "(= ") {
+					bad = true
+				}
+			}
+			if !bad {
+				ok = append(ok, p)
+			}
+		}
+		pats = ok
+	}
 	if len(pats) > 0 {
 		b.WriteString("(! ")
 		b.WriteString(body.S)
